@@ -17,7 +17,8 @@ pub const CHECK: Check = Check { id: "C20", level: "exploration", flavours: &["p
 const RULE: &str = "cases = (files x pieces x interleaving written through mla_config_* / mla_archive_* of libmla.so built from the tree, \
 write-callback schedule accepting 1..n bytes of each buffer, optional failure placement: the callback returns an error or \
 reports 0 bytes at its k-th call, null placements: a call made with a null handle / null buffer / a handle the interface \
-already cleared (double close, config consumed by mla_archive_new), then extraction of the collected archive through \
+already cleared (double close, config consumed by mla_archive_new, closing and flushing again after a close that failed, \
+closing while a file is still open and then using the handle), then extraction of the collected archive through \
 mla_roarchive_extract with throttled read / seek callbacks, per-file writers with their own schedules, a file callback that \
 declines some names). Cases run in worker processes. Oracle: without failure placement every call returns 0, the collected \
 bytes are read by the Rust reader to exactly the files passed in, and every accepted extraction writer receives exactly its \
@@ -206,6 +207,8 @@ pub enum NullPlace {
     ConfigNullHandles,
     ExtractConsumedConfig,
     ExtractNullCallbacks,
+    /// mla_archive_close while a file is still open (refused), then close again, then use the handle
+    CloseWithOpenFile,
 }
 
 #[derive(Clone, Debug, Serialize, Deserialize)]
@@ -321,6 +324,7 @@ pub fn oracle(c: &Case, st: &mut Stats) -> Result<(), String> {
         .collect();
     let mut started = vec![false; c.files.len()];
     let mut any_error = false;
+    let closed_early = false;
     let mut k = 0usize;
     let mut nops = 0u32;
     loop {
@@ -355,6 +359,27 @@ pub fn oracle(c: &Case, st: &mut Stats) -> Result<(), String> {
                     queues[f].clear();
                 } else {
                     model.insert(names[f].clone(), Vec::new());
+                    if has(NullPlace::CloseWithOpenFile) {
+                        // closing the archive while a file is open is refused; whatever the interface did with
+                        // the archive, the handle must be safe to pass again
+                        let s = (lib.archive_close)(&mut ar);
+                        if s == 0 {
+                            return Err("mla_archive_close succeeded although a file was still open".into());
+                        }
+                        let s2 = (lib.archive_close)(&mut ar);
+                        if s2 == 0 {
+                            return Err("second mla_archive_close after a refused one returned MLA_STATUS_SUCCESS".into());
+                        }
+                        let s3 = (lib.archive_flush)(ar);
+                        let s4 = (lib.archive_file_append)(ar, handles[f], [1u8, 2, 3].as_ptr(), 3);
+                        st.label("close-with-open-file");
+                        st.nontrivial(util::hash64(format!("{c:?}").as_bytes()));
+                        if ar.is_null() && (s3 == 0 || s4 == 0) {
+                            return Err("calls on the cleared archive handle returned MLA_STATUS_SUCCESS".into());
+                        }
+                        // the archive is gone (or unusable): the case ends here
+                        return Ok(());
+                    }
                 }
             }
             Some(len) => {
@@ -415,10 +440,22 @@ pub fn oracle(c: &Case, st: &mut Stats) -> Result<(), String> {
     }
     let s = (lib.archive_close)(&mut ar);
     statuses.push(("mla_archive_close".into(), s));
+    let _ = closed_early;
     if s != 0 {
         any_error = true;
         if !failing {
             return Err(format!("mla_archive_close failed: {s:#x}"));
+        }
+        // the usual cleanup idiom after a failed close: close again. The archive has been released by the
+        // first call, so this must be refused with a status (on a cleared handle), never crash.
+        let s2 = (lib.archive_close)(&mut ar);
+        statuses.push(("mla_archive_close (again, after the failure)".into(), s2));
+        if s2 == 0 {
+            return Err("a second mla_archive_close after a failed one returned MLA_STATUS_SUCCESS".into());
+        }
+        let s3 = (lib.archive_flush)(ar);
+        if s3 == 0 {
+            return Err("mla_archive_flush on the handle of a closed archive returned MLA_STATUS_SUCCESS".into());
         }
     } else if !ar.is_null() {
         return Err("mla_archive_close did not clear the archive handle".into());
@@ -530,6 +567,7 @@ fn case() -> impl Strategy<Value = Case> {
         Just(NullPlace::ConfigNullHandles),
         Just(NullPlace::ExtractConsumedConfig),
         Just(NullPlace::ExtractNullCallbacks),
+        Just(NullPlace::CloseWithOpenFile),
     ];
     (
         prop::collection::vec(prop::collection::vec(prop_oneof![Just(0u32), Just(1), 2u32..300, 300u32..20_000, Just(131072), Just(131073)], 0..5), 0..5),
